@@ -51,14 +51,14 @@ type Op struct {
 }
 
 type Scenario struct {
-	Timeout int64  `json:"timeout"` // PubTimeoutAfter in ns
-	CbSet   bool   `json:"cb"`
-	DefBuf  int    `json:"defbuf"`
-	Progs   [][]Op `json:"progs"`
+	Timeout int64   `json:"timeout"` // PubTimeoutAfter in ns
+	CbSet   bool    `json:"cb"`
+	DefBuf  int     `json:"defbuf"`
+	Progs   [][]Op  `json:"progs"`
 	Phases  [][]int `json:"phases"` // threads released so far, per phase
-	Slow    uint64 `json:"slow"`    // != 0: receivers dawdle (seeded) before each receive
-	Explore bool   `json:"explore"`
-	Desc    string `json:"desc"`
+	Slow    uint64  `json:"slow"`   // != 0: receivers dawdle (seeded) before each receive
+	Explore bool    `json:"explore"`
+	Desc    string  `json:"desc"`
 }
 
 type Snap struct {
@@ -471,8 +471,8 @@ func replay(c *core.Ctx, raw json.RawMessage) error {
 var kinds = []string{"Async", "Wait", "Sync"}
 
 type Params struct {
-	Bufs     []int  // buffer of each initial subscriber
-	UseDef   bool   // subscribe with Sub() and DefaultBuffer (all Bufs equal)
+	Bufs     []int // buffer of each initial subscriber
+	UseDef   bool  // subscribe with Sub() and DefaultBuffer (all Bufs equal)
 	Slice    bool
 	W        string
 	Evs      []int
@@ -481,8 +481,8 @@ type Params struct {
 	Modes    []int  // per initial subscriber: 0 eager, 1 delayed, 2 late
 	Mid      string // "", unsub, unsuball, sub, unsubnil, unsubforeign, unsubtwice
 	MidSub   int
-	MidWhen  int // 0 before, 1 during, 2 after the first publish
-	WithOnly int // -2 none, else the channel index given to WithOnly (-1 nil, 99 foreign)
+	MidWhen  int    // 0 before, 1 during, 2 after the first publish
+	WithOnly int    // -2 none, else the channel index given to WithOnly (-1 nil, 99 foreign)
 	P2       string // "", or kind of a second publish (single event) after the middle action
 	Slow     uint64
 }
@@ -755,13 +755,13 @@ type pubCall struct {
 // reference walks the threads in release order (non-receiver threads are
 // released one per phase) and computes what the property prescribes.
 type reference struct {
-	subs      []int             // root subscriptions, in order
-	views     map[int][]int     // object -> subscriptions
-	closedBy  map[int][2]int    // channel -> (thread, call) of the Unsub/UnsubAll that closes it
-	rets      map[int][][]int   // expected results of the non-receiver threads
+	subs      []int           // root subscriptions, in order
+	views     map[int][]int   // object -> subscriptions
+	closedBy  map[int][2]int  // channel -> (thread, call) of the Unsub/UnsubAll that closes it
+	rets      map[int][][]int // expected results of the non-receiver threads
 	pubs      []pubCall
-	published map[int][]int     // channel -> events published to it, in publication order
-	allSync   map[int]bool      // channel -> every publish to it was a Sync variant
+	published map[int][]int // channel -> events published to it, in publication order
+	allSync   map[int]bool  // channel -> every publish to it was a Sync variant
 	nch       int
 }
 
